@@ -111,7 +111,7 @@ def run(prop, tier, tree, record):
     if prop in PROOF_PROPS:
         code, ev = driver.check_property(prop, tier=tier, tree=tree, record=record, level="proof",
                                          design_ref=PROOF_PROPS[prop])
-        if prop in ("C10", "C12"):
+        if prop in ("C10", "C12", "C06"):
             code = gym_registry_monitor(prop, tree, code, ev)
         if prop == "C06":
             code = hops_frame_monitor(prop, tree, code, ev)
